@@ -295,8 +295,18 @@ def make_stub_node(**kwargs):
             """an operation of `pkh` already sitting in the mempool (injected by somebody else)"""
             acc = self.accounts[pkh]
             first = acc['counter'] + self.pending_count(pkh) + 1
-            contents = [{'kind': 'transaction', 'source': pkh, 'fee': '1000', 'counter': str(first + i), 'gas_limit': '2000',
-                         'storage_limit': '0', 'amount': '1', 'destination': pkh} for i in range(n_contents)]
+            # every manager kind takes a counter, the ones added by later protocols included
+            kinds = ['transaction', 'register_global_constant', 'delegation', 'transfer_ticket', 'reveal', 'smart_rollup_add_messages', 'origination',
+                     'smart_rollup_execute_outbox_message']
+            extra = {'transaction': {'amount': '1', 'destination': pkh}, 'register_global_constant': {'value': {'prim': 'Unit'}}, 'delegation': {},
+                     'transfer_ticket': {'ticket_contents': {'string': 'T'}, 'ticket_ty': {'prim': 'string'}, 'ticket_ticketer': pkh, 'ticket_amount': '1',
+                                         'destination': pkh, 'entrypoint': 'default'},
+                     'reveal': {'public_key': 'edpkuBknW28nW72KG6RoHtYW7p12T6GKc7nAbwYX5m8Wd9sDVC9yav'}, 'smart_rollup_add_messages': {'message': ['00']},
+                     'origination': {'balance': '0', 'script': {'code': [], 'storage': {'prim': 'Unit'}}},
+                     'smart_rollup_execute_outbox_message': {'rollup': 'sr163Lv22CdE8QagCwf48PWDTquk6isQwv57', 'cemented_commitment': 'src12UJzB8mg7yU6nWPzicH7ofJbFjyJEbHvwtZdfRXi8DQHNp1LY8', 'output_proof': '00'}}
+            k0 = len(self.mempool)
+            contents = [{'kind': kinds[(k0 + i) % len(kinds)], 'source': pkh, 'fee': '1000', 'counter': str(first + i), 'gas_limit': '2000',
+                         'storage_limit': '0', **extra[kinds[(k0 + i) % len(kinds)]]} for i in range(n_contents)]
             self.mempool.append({'hash': op_hash(b'foreign%d' % len(self.mempool)), 'branch': block_hash(self.level),
                                  'contents': contents, 'where': where})
 
